@@ -1237,12 +1237,52 @@ func (m *M) store(p *path, s *VSet, t types.Type, v Value, instr ssa.Instruction
 			for i, lv := range leaves {
 				old := m.memGet(p, a+Addr(i))
 				m.memSet(p, a+Addr(i), m.merge(al.G, lv, old))
-				m.record(p, a+Addr(i), true, plain, instr)
+				m.record(p, a+Addr(i), !isParamSpill(instr), plain, instr)
 			}
 		default:
 			panic(unsupported(fmt.Sprintf("store through %T", al.C)))
 		}
 	}
+}
+
+// isParamSpill: the store that initialises the heap cell of a captured parameter or free
+// variable at function entry (`t0 = new T (x); *t0 = x`). Nothing can hold the cell's address
+// yet, and every other thread reaches the cell only through a closure or pointer created later
+// by this activation, so the write is ordered before all of their accesses: it does not count as
+// a write for the sharing analysis (a cell that is only read afterwards stays invisible).
+func isParamSpill(instr ssa.Instruction) bool {
+	st, ok := instr.(*ssa.Store)
+	if !ok {
+		return false
+	}
+	al, ok := st.Addr.(*ssa.Alloc)
+	if !ok {
+		return false
+	}
+	switch st.Val.(type) {
+	case *ssa.Parameter, *ssa.FreeVar:
+	default:
+		return false
+	}
+	b := st.Block()
+	if b == nil || b.Index != 0 || al.Block() != b {
+		return false
+	}
+	// the store must be the first use of the cell
+	for _, in := range b.Instrs {
+		if in == instr {
+			return true
+		}
+		if in == ssa.Instruction(al) {
+			continue
+		}
+		for _, op := range in.Operands(nil) {
+			if *op == ssa.Value(al) {
+				return false
+			}
+		}
+	}
+	return false
 }
 
 func (m *M) violate(p *path, kind, id string, instr ssa.Instruction, g *smt.Term) {
